@@ -1,6 +1,6 @@
 (* Assembly of the C08 obligations into the statement of props/C08.v. *)
 From Coq Require Import Reals List Arith Bool Lia Lra Permutation ZArith.
-From GS Require Import ExprR LinAlg Meth Wrap Chi2 GraphModel GNSpec GenSE2 C10_SE2 C01_SE3 C02_zero C03_sums C03_index C03_assembly C06_main C08_graph C08_pose.
+From GS Require Import ExprR LinAlg Meth Wrap Chi2 GraphModel GNSpec GenSE2 C10_SE2 C01_SE3 C02_zero C03_sums C03_index C03_assembly C06_main C08_graph C08_pose C08_vperm.
 Import ListNotations.
 Open Scope R_scope.
 
@@ -8,6 +8,20 @@ Lemma C08_all :
   (* ---- order of the edge list ---- *)
   (forall vs es es', Permutation es es' ->
      (forall r, spec_b vs es r = spec_b vs es' r) /\ (forall r c, spec_H vs es r c = spec_H vs es' r c) /\ spec_chi2 es = spec_chi2 es') /\
+  (* ---- order of the VERTEX list: vertex k moves to position sg[k]; the flat system is the same system renumbered by phi,
+          chi2 is the same number, solutions correspond; and (distinct ids) the binding of edges follows the permutation ---- *)
+  (forall vs vs' sg es, Permutation sg (seq 0 (length vs)) -> length vs' = length vs ->
+     (forall k, (k < length vs)%nat -> nth (nth k sg 0%nat) vs' (mkvertex 0 false) = nth k vs (mkvertex 0 false)) -> wf_graph vs es ->
+     (forall r, (r < glen vs)%nat -> spec_b vs' (map (perm_edge sg) es) (phi vs vs' sg r) = spec_b vs es r) /\
+     (forall r c, (r < glen vs)%nat -> (c < glen vs)%nat ->
+        spec_H vs' (map (perm_edge sg) es) (phi vs vs' sg r) (phi vs vs' sg c) = spec_H vs es r c) /\
+     spec_chi2 (map (perm_edge sg) es) = spec_chi2 es /\
+     (forall dx dx', (forall c, (c < glen vs)%nat -> dx' (phi vs vs' sg c) = dx c) ->
+        solves (glen vs) (spec_H vs es) (spec_b vs es) dx ->
+        solves (glen vs') (spec_H vs' (map (perm_edge sg) es)) (spec_b vs' (map (perm_edge sg) es)) dx')) /\
+  (forall ids ids' sg vids, NoDup ids -> Permutation sg (seq 0 (length ids)) -> length ids' = length ids ->
+     (forall k, (k < length ids)%nat -> nth (nth k sg 0%nat) ids' 0%Z = nth k ids 0%Z) ->
+     bind_slots ids' vids = option_map (map (fun k => nth k sg 0%nat)) (bind_slots ids vids)) /\
   (* ---- injective relabelling of the vertex ids (negative, sparse, huge ids): same binding ---- *)
   (forall f : Z -> Z, (forall a b, f a = f b -> a = b) -> forall ids vids, bind_slots (map f ids) (map f vids) = bind_slots ids vids) /\
   (* ---- adding multiples of 2 pi to an SE(2) angle: the constructor stores the same pose ---- *)
@@ -33,6 +47,12 @@ Lemma C08_all :
 Proof.
   repeat match goal with |- _ /\ _ => split end.
   - exact C08_edge_perm.
+  - intros vs vs' sg es Hp Hl Hn Hwf. repeat match goal with |- _ /\ _ => split end.
+    + intros r Hr. apply spec_b_vperm; auto.
+    + intros r c Hr Hc. apply spec_H_vperm; auto.
+    + apply chi2_vperm.
+    + intros dx dx' Hd Hs. eapply solves_vperm; eauto.
+  - exact bind_vperm.
   - exact C08_relabel.
   - exact C08_two_pi.
   - exact C08_split_edge.
